@@ -34,15 +34,19 @@ def run_shard(pid, tier, seed, shard, nshards, examples):
 
     def record(program, origin):
         res = safe_run(check, program)
-        out["evaluations"] += 1
+        out["evaluations"] += max(1, int(res.evals))
+        out["programs"] = out.get("programs", 0) + 1
         if origin == "enum":
             out["enumerated"] += 1
         for lab in res.labels:
             out["labels"][lab] = out["labels"].get(lab, 0) + 1
         for key, val in res.counters.items():
             out["counters"][key] = out["counters"].get(key, 0) + val
+        if res.keys:
+            out["keys"].update(res.keys)
         if res.nontrivial:
-            out["keys"].add(res.key)
+            if not res.keys:
+                out["keys"].add(res.key)
             if len(out["samples"]) < 3:
                 out["samples"].append({"program": program, "info": res.info, "labels": res.labels})
         elif not out["samples"] and origin == "gen":
